@@ -348,6 +348,40 @@ theorem lb_sigmoid_eq (l : ℝ) : TR.sigmoid l = Real.exp l / (1 + Real.exp l) :
   ring
 
 
+/-- `log(1 + e^{-l}) = log(1 + e^{l}) - l` -/
+theorem log1p_exp_neg (l : ℝ) : Real.log (1 + Real.exp (-l)) = Real.log (1 + Real.exp l) - l := by
+  have hpos : 0 < 1 + Real.exp l := by have := Real.exp_pos l; linarith
+  have e : 1 + Real.exp (-l) = (1 + Real.exp l) / Real.exp l := by
+    rw [Real.exp_neg]; have := Real.exp_pos l; field_simp; ring
+  rw [e, Real.log_div hpos.ne' (Real.exp_pos l).ne', Real.log_exp]
+
+/-- the executed (stable) form of `-BCE-with-logits` is its documented meaning, for every `b` -/
+theorem lbTlogProb_eq_doc (logit b : ℝ) : lbTlogProb TR logit b = lbTlogProbDoc TR logit b := by
+  have hpos : 0 < 1 + Real.exp logit := by have := Real.exp_pos logit; linarith
+  have hs := lb_sigmoid_eq logit
+  have h1 : Real.log (TR.sigmoid logit) = logit - Real.log (1 + Real.exp logit) := by
+    rw [hs, Real.log_div (Real.exp_pos logit).ne' hpos.ne', Real.log_exp]
+  have h0 : Real.log (1 - TR.sigmoid logit) = - Real.log (1 + Real.exp logit) := by
+    have : 1 - TR.sigmoid logit = (1 + Real.exp logit)⁻¹ := by
+      rw [hs]; field_simp; ring
+    rw [this, Real.log_inv]
+  simp only [lbTlogProb, lbTlogProbDoc, Transc.log1p]
+  have e1 : TR.log = Real.log := rfl
+  have e2 : TR.exp = Real.exp := rfl
+  rw [e1, e2, h1, h0, log1p_exp_neg]
+  ring
+
+/-- `clamp_probs` lands strictly inside the unit interval (`0 < eps < 1/2`), whatever its input -/
+theorem clampProbs_mem (eps x : ℝ) (h0 : 0 < eps) (h1 : eps < 1 / 2) :
+    0 < clampProbs eps x ∧ clampProbs eps x < 1 := by
+  simp only [clampProbs]
+  constructor <;> (split_ifs <;> linarith)
+
+/-- inside `[eps, 1 - eps]` the clamp is the identity -/
+theorem clampProbs_id (eps x : ℝ) (h0 : eps ≤ x) (h1 : x ≤ 1 - eps) : clampProbs eps x = x := by
+  simp only [clampProbs]
+  split_ifs <;> linarith
+
 /-- `z(u)` of `rsample` as a single logarithm -/
 theorem lbRsample_eq (p u : ℝ) (hp : 0 < p) (hp1 : p < 1) (hu : 0 < u) (hu1 : u < 1) :
     lbRsample TR (Real.log (p / (1 - p))) u = Real.log (p * u / ((1 - p) * (1 - u))) := by
